@@ -157,6 +157,8 @@ def _reference(api, Y, delays, n_eff):
 def _call(fil, api, g, st, ns, res, case):
     name, _, arg = api.partition(":")
     kw = {"gulp": g, "quiet": True, "description": "vf"}
+    if g % 4 == 3:
+        kw["allocator"] = lambda n: np.zeros(n, dtype=np.uint8)  # plan_kwargs pass through to read_plan
     if st is not None:
         kw["start"] = st
     if ns is not None:
